@@ -9,6 +9,7 @@ package fingerproxy
 
 import (
 	"context"
+	"crypto/tls"
 	"flag"
 	"io"
 
@@ -51,3 +52,6 @@ func VerifBuild(ctx context.Context, args []string) (*proxyserver.Server, error)
 	)
 	return server, nil
 }
+
+// VerifTLSConfig builds the TLS configuration the way Run does (once, at start-up).
+func VerifTLSConfig(cw *certwatcher.CertWatcher) *tls.Config { return defaultTLSConfig(cw) }
